@@ -167,10 +167,10 @@ def build_singles(d):
         for k in ("DS", "DW"):
             w("d%d_%s.o" % (i, k), symfam.provider_object([("x", "S" if k == "DS" else "W",
                                                             marker(i, k))]))
-            r = subprocess.run(["ld", "-shared", "-o", "d%d_%s.so" % (i, k), "d%d_%s.o" % (i, k)],
-                               cwd=d, stdout=subprocess.PIPE, stderr=subprocess.PIPE)
-            if r.returncode:
-                raise RuntimeError("ld -shared failed: " + r.stderr.decode())
+            rc, err = symfam.run_tool(["ld", "-shared", "-o", "d%d_%s.so" % (i, k),
+                                       "d%d_%s.o" % (i, k)], d)
+            if rc:
+                raise RuntimeError("ld -shared failed: " + err)
 
 
 def single_files(seq, pos, ref):
@@ -198,9 +198,7 @@ def ref_linker(seq):
 
 
 def run_linker(linker, argv, cwd):
-    p = subprocess.run([linker, *argv], cwd=cwd, stdin=subprocess.DEVNULL, stdout=subprocess.PIPE,
-                       stderr=subprocess.PIPE)
-    return p.returncode, p.stderr.decode("utf-8", "replace")
+    return symfam.run_tool([linker, *argv], cwd)
 
 
 def single_reference(sdir, outp, m):
@@ -212,6 +210,8 @@ def single_reference(sdir, outp, m):
         pass
     rc, err = run_linker(linker, [*link_flags(out, amd, linker), *single_files(seq, pos, ref),
                                   "-o", outp], sdir)
+    if rc < 0:
+        return ("none", "reference linker killed by signal %d" % -rc), err
     if rc != 0:
         return ("err",), err
     return ("ok", normalise(symfam.observe_slots(outp, ["x"])["x"], seq, ref)), err
@@ -247,10 +247,10 @@ def build_pack_sos(d, maxlen):
                     for r in REFS]
             with open(os.path.join(d, "so%d_%d.o" % (n, i)), "wb") as f:
                 f.write(symfam.provider_object(defs))
-            r = subprocess.run(["ld", "-shared", "-o", "so%d_%d.so" % (n, i), "so%d_%d.o" % (n, i)],
-                               cwd=d, stdout=subprocess.PIPE, stderr=subprocess.PIPE)
-            if r.returncode:
-                raise RuntimeError("ld -shared failed: " + r.stderr.decode())
+            rc, err = symfam.run_tool(["ld", "-shared", "-o", "so%d_%d.so" % (n, i),
+                                       "so%d_%d.o" % (n, i)], d)
+            if rc:
+                raise RuntimeError("ld -shared failed: " + err)
 
 
 def write_pack(d, sodir, shape, pos, names):
